@@ -23,19 +23,20 @@
 #define STR2(a) #a
 #define STR(a) STR2(a)
 
-typedef struct { i64 len, first, step; } pys_t;
+typedef struct { i64 len, first, step, stop; } pys_t;   /* first/stop: the adjusted (normalised, clamped) bounds */
 static pys_t py_slice(i64 n, int hs, i64 st, int hp, i64 sp, int he, i64 se){
   pys_t r; if (!he) se = 1;
   i64 lo, hi; if (se > 0){ lo = 0; hi = n; } else { lo = -1; hi = n - 1; }
   if (!hs) st = se > 0 ? 0 : n - 1; else if (st < 0){ st += n; if (st < lo) st = lo; } else if (st > hi) st = hi;
   if (!hp) sp = se > 0 ? n : -1;    else if (sp < 0){ sp += n; if (sp < lo) sp = lo; } else if (sp > hi) sp = hi;
-  r.first = st; r.step = se;
+  r.first = st; r.step = se; r.stop = sp;
   if (se > 0) r.len = sp > st ? (sp - st - 1) / se + 1 : 0; else r.len = st > sp ? (st - sp - 1) / (-se) + 1 : 0;
   return r;
 }
 /* Regions of the open findings (see props/C05.py PENDING_FINDINGS). Each is a predicate over the slice as written by the user. */
-/* (1) the selection is empty in Python */
-static int kf_empty(pys_t py){ return py.len == 0; }
+/* (1) the selection is empty in Python because the adjusted stop lies strictly before the adjusted start in walking direction
+ *     (empty selections with adjusted start == stop come out right) */
+static int kf_empty(pys_t py){ return py.len == 0 && py.first != py.stop; }
 /* (2) a bound that Python clamps: start < -n, start > n (start == n too when walking backwards), stop < -n */
 static int kf_clamp(i64 n, int hs, i64 st, int hp, i64 sp, int he, i64 se){ return (hs && (st < -n || st > n || (he && se < 0 && st == n))) || (hp && sp < -n); }
 /* (3) negative step together with an explicit stop (only "non-negative start, stop == 0" is handled) */
@@ -72,6 +73,12 @@ static void in_slice1(u64* n, i32* st, i32* sp, i32* se){
   *n = in_u64(1, MAXN);
   *st = in_i32(-(MAXN+2), MAXN+2); *sp = in_i32(-(MAXN+2), MAXN+2); *se = in_i32(-3, 3);
   ASSUME(*se != 0);
+#ifdef FIXSP      /* the stop is a constant of the instantiation (Last = -1) */
+  ASSUME(*sp == FIXSP);
+#endif
+#ifdef UNSIGNED   /* unsigned (size_t) parts */
+  ASSUME(*st >= 0 && *sp >= 0 && *se > 0);
+#endif
   ASSUME(*st >= -(i64)*n - 2 && *st <= (i64)*n + 2 && *sp >= -(i64)*n - 2 && *sp <= (i64)*n + 2);
 }
 #ifdef H_PACKED1
